@@ -177,6 +177,13 @@ Definition run_remoting (t : tm) : tm :=
           TL [t_obs (observe (churn_events hdec ss) obs0); TL (map (t_churn_path os) ps)]
       | _, _ => tm_err 1
       end
+  | TL [TN 3; paths; steps] =>
+      (* name reuse under mixed traffic (C15: the stream also carries system envelopes - Watch, Ping, Kill - which the
+         harness codec does not decode and which are no deliveries of the script's messages): per path of [paths] only *)
+      match get_list get_b paths, get_list get_step steps with
+      | Some ps, Some ss => TL (map (t_churn_path (run_churn hdec h_rpath ss [])) ps)
+      | _, _ => tm_err 1
+      end
   | _ => tm_err 0
   end.
 
